@@ -1,5 +1,6 @@
 import OVM.Props.C01
-import OVM.Refine.GlobalStep
+import OVM.Refine.GlobalBU2
+import OVM.Refine.GlobalQueries
 /-
   C01, reachability part — the cache invariant holds in EVERY state the API can reach.
 
@@ -20,10 +21,14 @@ import OVM.Refine.GlobalStep
   add_cell / set_cell only onto pairwise distinct halffaces that no other live cell uses (C01's own
   precondition; cc:2280); set_* only on a not-deleted entity (NOT asserted by the C++; witnesses
   `setEdge/setFace/setCell_deleted_breaks`, OVM/Refine/CacheSet.lean).
+
+  Second part (C12): on `GInv` states the operations do not depend on the bottom-up configuration
+  (`bottom_up_optional_partial`, `toggle_is_transparent`; OVM/Refine/GlobalBU.lean, GlobalBU2.lean).
 -/
 namespace OVM.Props.C01Reach
 open OVM OVM.Kernel
-open OVM.Kernel.Global (GInv ginv_empty ginv_step ginv_run ginv_reachable closed_iff_up historyOKB historyOK_of_B)
+open OVM.Kernel.Global (GInv ginv_empty ginv_step ginv_run ginv_reachable closed_iff_up historyOKB historyOK_of_B SameDefs
+  BUCovered HistoryCovered same_step_partial same_run_partial same_toggle_left same_opOK)
 
 /-- the empty mesh satisfies the global invariant -/
 theorem inv_init : GInv ({} : Kernel) := ginv_empty
@@ -95,6 +100,44 @@ theorem every_query_exact_on_reachable_states (ops : List Op) (h : Global.Histor
     (k.fBU = true → ∀ hf, hf < k.nHF → ∀ c, k.cellOf hf = some c → k.cDeleted c = false) :=
   every_query_exact (run {} ops) (reach_inv ops h)
 
+/-- **the derived upward queries** on a state satisfying the invariant: edge/halfedge → faces, vertex → faces,
+    halfedge → cells, cell → cells and `is_boundary` on halfedges, edges, vertices and cells are exactly the
+    brute-force answers over the stored definitions of the not-deleted entities (OVM/Spec/Incidence.lean).
+    vertex → faces climbs two levels and uses `Closed` (the edges of a live face are live); the cell queries use
+    C01's precondition `oneCell`.  NOT here: vertex → cells — with unchecked `add_face` a face need not be a closed
+    loop, and a cell whose halfface touches the vertex only with the END of a halfedge is found by the scan `sVC` but
+    not through `outgoing halfedges → halffaces → incident cell` (needs the loop property of faces, C11/C08, which is
+    not part of `GInv`); vertex → halffaces / edge → halffaces (sortedness of the interleaved specification lists). -/
+theorem derived_queries_exact (k : Kernel) (hi : GInv k) :
+    (k.eBU = true → ∀ h, h < k.nHE → k.qHEF h = k.sHEF h) ∧
+    (k.eBU = true → ∀ e, e < k.nE → k.qEF e = k.sEF e) ∧
+    (k.vBU = true → k.eBU = true → k.fBU = true → ∀ v, v < k.nV → k.qVF v = k.sVF v) ∧
+    (k.eBU = true → k.fBU = true → ∀ h, h < k.nHE → (k.qHEC h).Perm (k.sHEC h) ∧ (k.qHEC h).Nodup) ∧
+    (k.fBU = true → ∀ c, c < k.nC → k.qCC c = k.sCC c) ∧
+    (k.eBU = true → k.fBU = true → ∀ h, h < k.nHE → k.qBoundaryHE h = k.sBoundaryHE h) ∧
+    (k.eBU = true → k.fBU = true → ∀ e, e < k.nE → k.qBoundaryE e = k.sBoundaryE e) ∧
+    (k.vBU = true → k.eBU = true → k.fBU = true → ∀ v, v < k.nV → k.qBoundaryV v = k.sBoundaryV v) ∧
+    (k.fBU = true → ∀ c, c < k.nC → k.qBoundaryC c = k.sBoundaryC c) :=
+  ⟨fun he h hh => Global.qHEF_exact hi.wf he hh, fun he e hlt => Global.qEF_exact hi.wf he hlt,
+   fun hv he hb v hlt => Global.qVF_exact hi.wf hi.closed hv he hb hlt,
+   fun he hb h hh => Global.qHEC_exact hi.wf hi.one he hb hh, fun hb c hc => Global.qCC_exact hi.wf hi.one hb hc,
+   fun he hb h hh => Global.qBoundaryHE_exact hi.wf he hb hh, fun he hb e hlt => Global.qBoundaryE_exact hi.wf he hb hlt,
+   fun hv he hb v hlt => Global.qBoundaryV_exact hi.wf hv he hb hlt, fun hb c hc => Global.qBoundaryC_exact hi.wf hb hc⟩
+
+/-- … on every state reachable from the empty mesh by valid calls -/
+theorem derived_queries_exact_on_reachable_states (ops : List Op) (h : Global.HistoryOK {} ops) :
+    let k := run {} ops
+    (k.eBU = true → ∀ h, h < k.nHE → k.qHEF h = k.sHEF h) ∧
+    (k.eBU = true → ∀ e, e < k.nE → k.qEF e = k.sEF e) ∧
+    (k.vBU = true → k.eBU = true → k.fBU = true → ∀ v, v < k.nV → k.qVF v = k.sVF v) ∧
+    (k.eBU = true → k.fBU = true → ∀ h, h < k.nHE → (k.qHEC h).Perm (k.sHEC h) ∧ (k.qHEC h).Nodup) ∧
+    (k.fBU = true → ∀ c, c < k.nC → k.qCC c = k.sCC c) ∧
+    (k.eBU = true → k.fBU = true → ∀ h, h < k.nHE → k.qBoundaryHE h = k.sBoundaryHE h) ∧
+    (k.eBU = true → k.fBU = true → ∀ e, e < k.nE → k.qBoundaryE e = k.sBoundaryE e) ∧
+    (k.vBU = true → k.eBU = true → k.fBU = true → ∀ v, v < k.nV → k.qBoundaryV v = k.sBoundaryV v) ∧
+    (k.fBU = true → ∀ c, c < k.nC → k.qBoundaryC c = k.sBoundaryC c) :=
+  derived_queries_exact (run {} ops) (reach_inv ops h)
+
 /-! ### non-vacuity -/
 
 /-- a history of 25 valid calls: a tetrahedron built through `add_face(vertices)` and a checked `add_cell`, a
@@ -122,5 +165,82 @@ set_option maxRecDepth 1000000 in
 example : GInv (run {} (reachHistory.take 24)) ∧ (run {} (reachHistory.take 24)).edges = [(3, 2), (2, 1)] ∧
     (run {} (reachHistory.take 20)).nF = 1 ∧ (run {} (reachHistory.take 14)).needsGC = true :=
   ⟨reach_inv _ (history_test_sound {} _ (by decide)), by decide, by decide, by decide⟩
+
+set_option maxRecDepth 1000000 in
+/-- the derived queries are not trivially empty on a reachable state: after the 15th call of `reachHistory` (a
+    deferred `delete_face` is pending) vertex 2 has three live faces (face 1, which also touches it, is flagged) -/
+example : (run {} (reachHistory.take 15)).qVF 2 = (run {} (reachHistory.take 15)).sVF 2 ∧
+    (run {} (reachHistory.take 15)).sVF 2 = [0, 2, 3] ∧ (run {} (reachHistory.take 15)).needsGC = true := by
+  refine ⟨((derived_queries_exact_on_reachable_states _ (history_test_sound {} _ (by decide))).2.2.1
+    (by decide) (by decide) (by decide) 2 (by decide)), by decide, by decide⟩
+
+/-! ## C12 on reachable states: bottom-up incidences are optional
+
+`SameDefs k1 k2` (OVM/Refine/GlobalBU.lean): same counts, deletion flags, pending counters, deletion modes, property
+columns, and the same stored definition of every NOT-deleted edge, face and cell; nothing is said about the caches or
+about which kinds are enabled.  (Definitions of flagged entities are not compared: in deferred mode the cache-guided
+index swaps do not visit them, the linear scans do — OVM/Refine/CacheSwapSpec.lean.)  -/
+
+/-- **one valid call, any two bottom-up configurations**: states that agree on everything but the caches are taken to
+    states that agree on everything but the caches, and both keep the global invariant (so every enabled cache is
+    the scan).  `_partial` — covered (`BUCovered`): add_vertex, add_n_vertices, add_edge, add_face (both
+    forms; the vertex form since 8c92632, when `add_edge`'s duplicate search became independent of the incidences —
+    /verif/findings/C12-add-edge-duplicate-order.md), add_cell, set_*, the four index swaps, the four DEFERRED
+    deletions with their closures, the mode switches and collect_garbage calls that do not collect,
+    enable_fast_deletion, every bottom-up toggle, clear.  Not covered: immediate deletions and a collecting
+    collect_garbage — open (see `Global.BUCovered`). -/
+theorem bottom_up_optional_partial (k1 k2 : Kernel) (s : SameDefs k1 k2) (i1 : GInv k1) (i2 : GInv k2) (op : Op)
+    (hok : Global.OpOK k1 op) (hc : BUCovered k1 op) :
+    SameDefs (k1.step op).1 (k2.step op).1 ∧ GInv (k1.step op).1 ∧ GInv (k2.step op).1 :=
+  ⟨same_step_partial s i1 i2 op hok hc, ginv_step k1 op i1 hok, ginv_step k2 op i2 (same_opOK s op hok)⟩
+
+/-- the same history of valid, covered calls in two bottom-up configurations -/
+theorem bottom_up_optional_history_partial (k1 k2 : Kernel) (ops : List Op) (s : SameDefs k1 k2) (i1 : GInv k1)
+    (i2 : GInv k2) (hr : Global.HistoryOK k1 ops) (hc : HistoryCovered k1 ops) :
+    SameDefs (k1.run ops) (k2.run ops) ∧ GInv (k1.run ops) ∧ GInv (k2.run ops) :=
+  same_run_partial ops s i1 i2 hr hc
+
+/-- **safe to disable, transparent to re-enable, at any moment**: toggling a kind changes nothing but that kind's
+    cache, and (by `GInv`, kept by the toggle) a re-enabled cache is exactly the scan over the definitions — the
+    incidences the mesh would have had if the kind had never been disabled -/
+theorem toggle_is_transparent (k : Kernel) (hi : GInv k) (kind : Nat) (b : Bool) :
+    SameDefs (k.step (.enableBU kind b)).1 k ∧ GInv (k.step (.enableBU kind b)).1 :=
+  ⟨same_toggle_left (SameDefs.refl k) kind b, ginv_step k _ hi trivial⟩
+
+/-- the argument conditions do not depend on the bottom-up configuration -/
+theorem valid_arguments_ignore_caches (k1 k2 : Kernel) (s : SameDefs k1 k2) (op : Op) (h : Global.OpOK k1 op) :
+    Global.OpOK k2 op := same_opOK s op h
+
+def buPre : List Op :=
+  [.addNVertices 4, .addFaceV [0,1,2], .addFaceV [0,3,1], .addFaceV [1,3,2], .addFaceV [0,2,3], .addCell true [0,2,4,6]]
+def buOps : List Op :=
+  [.swapEdge 0 3, .swapFace 0 2, .swapVertex 1 2, .swapCell 0 0, .addEdge 0 1 false, .setEdge 0 1 0,
+   .deleteFace 1, .deleteVertex 0]
+
+set_option maxRecDepth 1000000 in
+/-- non-vacuity: the tetrahedron with all three kinds enabled and with all three disabled, then one swap of each
+    kind, a de-duplicating `add_edge`, `set_edge`, a deferred `delete_face` and `delete_vertex` (closures through the
+    caches on one side, by linear scans on the other): the theorem applies, the results agree, three faces are
+    pending deletion on both sides and the second run never had a cache -/
+example :
+    let k1 := run {} buPre
+    let k2 := run {} (buPre ++ [.enableBU 0 false, .enableBU 1 false, .enableBU 2 false])
+    SameDefs (k1.run buOps) (k2.run buOps) ∧ (k1.run buOps).nDelF = 3 ∧ (k2.run buOps).nDelF = 3 ∧
+    (k2.run buOps).vBU = false ∧ (k2.run buOps).incHfs = [] ∧ (k1.run buOps).vBU = true := by
+  have i1 : GInv (run {} buPre) := reach_inv _ (history_test_sound {} _ (by decide))
+  have i2 : GInv (run {} (buPre ++ [.enableBU 0 false, .enableBU 1 false, .enableBU 2 false])) :=
+    reach_inv _ (history_test_sound {} _ (by decide))
+  have s : SameDefs (run {} buPre) (run {} (buPre ++ [.enableBU 0 false, .enableBU 1 false, .enableBU 2 false])) := by
+    have e : run {} (buPre ++ [.enableBU 0 false, .enableBU 1 false, .enableBU 2 false]) =
+        ((((run {} buPre).step (.enableBU 0 false)).1.step (.enableBU 1 false)).1.step (.enableBU 2 false)).1 := by
+      unfold run; rw [List.foldl_append]; rfl
+    rw [e]
+    exact (same_toggle_left (same_toggle_left (same_toggle_left (SameDefs.refl _) 0 false) 1 false) 2 false).symm
+  have hr : Global.HistoryOK (run {} buPre) buOps := history_test_sound _ _ (by decide)
+  have hc : HistoryCovered (run {} buPre) buOps :=
+    ⟨trivial, trivial, trivial, trivial, trivial, trivial, (by show Kernel.deferred _ = true; decide),
+     (by show Kernel.deferred _ = true; decide), trivial⟩
+  exact ⟨(bottom_up_optional_history_partial _ _ buOps s i1 i2 hr hc).1, by decide, by decide, by decide, by decide,
+    by decide⟩
 
 end OVM.Props.C01Reach
